@@ -72,6 +72,7 @@ def reduce_trig(p: nf.Poly, cos_id: int, sin_id: int) -> nf.Poly:
 
 def run(ctx: Ctx):
     augment_after_reset(ctx)
+    augmented_feature_written_whole(ctx)
     # ---------------- a: dihedral
     fi = ctx.repo.get_function(TR, "dihedral_8_augmentation")
     ctx.fn(fi)
@@ -384,6 +385,34 @@ def run(ctx: Ctx):
     for o in keep:
         o.rule = "C15.c"
     ctx.obligations.extend(keep)
+
+
+def augmented_feature_written_whole(ctx: Ctx):
+    """C15.h the augmented coordinates are the image of ALL nodes of a row under one isometry.  `StateAugmentation.__call__` may
+    post-process the whole feature (normalisation is a declared option), but an index-assignment into the augmented feature
+    replaces some nodes of some rows by other values: the row is no longer a distance-preserving image of its instance."""
+    import ast
+    cls = ctx.repo.get_class("rl4co/data/transforms.py", "StateAugmentation")
+    fi = cls.methods.get("__call__")
+    if fi is None:
+        raise AnalysisError("StateAugmentation.__call__ not found")
+    outs = set()
+    for st in ast.walk(fi.node):
+        if isinstance(st, ast.Assign) and len(st.targets) == 1 and isinstance(st.targets[0], ast.Name) and isinstance(st.value, ast.Call) \
+                and isinstance(st.value.func, ast.Attribute) and st.value.func.attr == "augmentation":
+            outs.add(st.targets[0].id)
+    if not outs:
+        raise AnalysisError("StateAugmentation.__call__: result of self.augmentation(...) not bound to a name")
+    partial = [st for st in ast.walk(fi.node) if isinstance(st, (ast.Assign, ast.AugAssign))
+               and isinstance((st.targets[0] if isinstance(st, ast.Assign) else st.target), ast.Subscript)
+               and isinstance((st.targets[0] if isinstance(st, ast.Assign) else st.target).value, ast.Name)
+               and (st.targets[0] if isinstance(st, ast.Assign) else st.target).value.id in outs]
+    ok = not partial
+    ctx.ob("C15.h", "StateAugmentation.__call__:augmented-feature-written-whole", ok, fi.loc,
+           "no index-assignment into the augmented feature" if ok else
+           f"`{ast.unparse(partial[0])[:80]}` (line {partial[0].lineno}) overwrites part of the augmented feature: with first_aug_identity=False node 0 of row B keeps its original "
+           "coordinates while the rest of that row is rotated -- the copy is not distance-preserving",
+           construct="StateAugmentation.__call__:partial-overwrite")
 
 
 def augment_after_reset(ctx: Ctx):
